@@ -17,7 +17,18 @@
 //!   (`opsem::relation_slots`) gets a random value (all op relations still hold by construction),
 //!   dead fused products are settled (`opsem::settle_dead_products`) and the same node relations
 //!   are re-checked: a failing node is a source relation that only the honest witness generator
-//!   upheld. Three random fillings per circuit.
+//!   upheld. Three random fillings per circuit. (On the pinned tree the only interpreted source
+//!   nodes sitting on such slots are fused products, which are settled — the evidence counters
+//!   `lib-source-nodes-on-free-slots/*` and `lib-free-slot-class/*` say so; the check fires when a
+//!   compiler change leaves an expression on a slot nothing refers to.)
+//! * C03 oracle `lib-carried` (keys `C03:libcarry:..`, signature `lib-uncarried-relation/..`):
+//!   every interpreted source relation must be carried by an emitted op relation on the same
+//!   witness slots, up to the implication-preserving rewrites the compiler performs (see
+//!   `check_carried`). This is what has power on verifier circuits, where every input is pinned by
+//!   Merkle / transcript checks and no counter-assignment can be reached by perturbation.
+//! * An honest, natively accepted input on which `CircuitRunner::run` fails is reported under C02
+//!   (`lib-honest-run-failed/<error>/<kind>`): builder-level folding / CSE errors are invisible in
+//!   the snapshot (the graph is already wrong) and show up exactly there.
 //!
 //! Not registered on its own: `--emit C02|C03` prints the `CaseResult`s of that property as
 //! `R <json>` lines (the format of `util::run_cases_isolated` children) and exits 0; without
@@ -311,6 +322,200 @@ fn primitive_ops_hold<EF: p3_field::Field>(c: &Circuit<EF>, w: &[EF], pubs: &[EF
     Ok(n)
 }
 
+/// C03 sub-oracle `lib-carried`: the compile run's output is matched against its input. Every
+/// interpreted source relation (node definition, connect) must be *carried* by an emitted op
+/// relation over the same witness slots (through `expr_to_widx`, i.e. after connect sharing and
+/// de-duplication), up to the transformations that preserve implication:
+/// commutativity; `sub` / `div` emitted as the add / mul solved for another operand; a product and
+/// the sum reading it fused into one `MulAdd` whose product slot no relation refers to (the source
+/// is existential in it) or whose product is still carried by a `Mul` op; `connect` = same slot.
+/// A relation that is not carried is enforced by nothing the proof system sees (on verifier
+/// circuits a counter-assignment cannot be exhibited by local perturbation: every input is bound
+/// by Merkle / transcript checks, so this is decided on the op list itself).
+fn check_carried<F: PrimeField64, EF: ExtensionField<F>>(
+    lib: &Lib<EF>,
+    live: &[bool],
+    counts: &mut BTreeMap<String, u64>,
+) -> Vec<Fail> {
+    use std::collections::{HashMap, HashSet};
+    let c = &lib.circuit;
+    let pair = |x: u32, y: u32| if x <= y { (x, y) } else { (y, x) };
+    let mut add_ops: HashSet<(u32, u32, u32)> = HashSet::new();
+    let mut mul_ops: HashSet<(u32, u32, u32)> = HashSet::new();
+    let mut add_by_out: HashMap<u32, Vec<(u32, u32)>> = HashMap::new();
+    let mut muladd_by_out: HashMap<u32, Vec<(u32, u32, u32, Option<u32>)>> = HashMap::new();
+    let mut muladd_by_io: HashMap<u32, Vec<(u32, u32)>> = HashMap::new();
+    let mut horner_ops: HashSet<(u32, u32, u32, u32, u32)> = HashSet::new();
+    let mut bool_ops: HashSet<(u32, u32)> = HashSet::new();
+    let mut const_ops: HashMap<u32, Vec<EF>> = HashMap::new();
+    let mut public_ops: HashSet<(u32, usize)> = HashSet::new();
+    for op in &c.ops {
+        match op {
+            Op::Const { out, val } => const_ops.entry(out.0).or_default().push(*val),
+            Op::Public { out, public_pos } => {
+                public_ops.insert((out.0, *public_pos));
+            }
+            Op::Alu { kind, a, b, c: cc, out, intermediate_out } => match kind {
+                AluOpKind::Add => {
+                    let (x, y) = pair(a.0, b.0);
+                    add_ops.insert((x, y, out.0));
+                    add_by_out.entry(out.0).or_default().push((x, y));
+                }
+                AluOpKind::Mul => {
+                    let (x, y) = pair(a.0, b.0);
+                    mul_ops.insert((x, y, out.0));
+                }
+                AluOpKind::MulAdd => {
+                    let (x, y) = pair(a.0, b.0);
+                    if let Some(cc) = cc {
+                        muladd_by_out.entry(out.0).or_default().push((x, y, cc.0, intermediate_out.map(|i| i.0)));
+                    }
+                    if let Some(io) = intermediate_out {
+                        muladd_by_io.entry(io.0).or_default().push((x, y));
+                    }
+                }
+                AluOpKind::HornerAcc => {
+                    if let (Some(cc), Some(acc)) = (cc, intermediate_out) {
+                        // out = acc * b + c - a
+                        horner_ops.insert((acc.0, b.0, cc.0, a.0, out.0));
+                    }
+                }
+                AluOpKind::BoolCheck => {
+                    bool_ops.insert((a.0, out.0));
+                }
+            },
+            _ => {}
+        }
+    }
+    let slot = |e: ExprId| -> Option<u32> { c.expr_to_widx.get(&e).map(|x| x.0) };
+    let is_live = |s: u32| live.get(s as usize).copied().unwrap_or(true);
+    let mut fails = vec![];
+    let mut bump = |k: String| *counts.entry(k).or_default() += 1;
+    // is `o = x + y` carried? directly, or by a fused MulAdd whose product slot (x or y) is
+    // existential (no relation refers to it) or still carried by a Mul op
+    let sum_carried = |o: u32, x: u32, y: u32| -> Option<&'static str> {
+        let (p, q) = pair(x, y);
+        if add_ops.contains(&(p, q, o)) {
+            return Some("add-op");
+        }
+        let fused = muladd_by_out.get(&o).is_some_and(|v| {
+            v.iter().any(|(a, b, cc, io)| {
+                let Some(t) = io else { return false };
+                let shape = (*cc == y && *t == x) || (*cc == x && *t == y);
+                shape && (!is_live(*t) || mul_ops.contains(&(*a, *b, *t)))
+            })
+        });
+        fused.then_some("fused-mul-add")
+    };
+    for (i, node) in lib.snap.nodes.iter().enumerate() {
+        let kind = node_kind(node);
+        let Some(o) = slot(ExprId(i as u32)) else { continue };
+        // (carried, via) — operands without a slot are reported by the consistency check
+        let verdict: Option<(bool, &'static str)> = (|| {
+            Some(match node {
+                Expr::Const(v) => (const_ops.get(&o).is_some_and(|vs| vs.iter().any(|x| x == v)), "const-op"),
+                Expr::Public(pos) => (public_ops.contains(&(o, *pos)), "public-op"),
+                Expr::Add { lhs, rhs } => {
+                    let (l, r) = (slot(*lhs)?, slot(*rhs)?);
+                    match sum_carried(o, l, r) {
+                        Some(via) => (true, via),
+                        None => (false, "-"),
+                    }
+                }
+                Expr::Sub { lhs, rhs } => {
+                    let (l, r) = (slot(*lhs)?, slot(*rhs)?);
+                    let (x, y) = pair(o, r);
+                    if add_ops.contains(&(x, y, l)) {
+                        (true, "add-op-solved-for-operand")
+                    } else if let Some(Expr::Const(cv)) = lib.snap.nodes.get(rhs.0 as usize) {
+                        // `x - c` emitted as `x + (-c)` with a synthetic constant slot k = -c
+                        let neg = -*cv;
+                        let is_neg_const = |k: u32| const_ops.get(&k).is_some_and(|vs| vs.iter().any(|v| *v == neg));
+                        let mut via = None;
+                        for (a, b) in add_by_out.get(&o).into_iter().flatten() {
+                            let k = if *a == l { *b } else if *b == l { *a } else { continue };
+                            if is_neg_const(k) {
+                                via = Some("add-op-with-negated-constant");
+                            }
+                        }
+                        for (_, _, cc, io) in muladd_by_out.get(&o).into_iter().flatten() {
+                            if *io == Some(l) && is_neg_const(*cc) && sum_carried(o, l, *cc).is_some() {
+                                via = Some("fused-mul-add-with-negated-constant");
+                            }
+                        }
+                        (via.is_some(), via.unwrap_or("-"))
+                    } else {
+                        (false, "-")
+                    }
+                }
+                Expr::Mul { lhs, rhs } => {
+                    let (l, r) = (slot(*lhs)?, slot(*rhs)?);
+                    let (x, y) = pair(l, r);
+                    if mul_ops.contains(&(x, y, o)) {
+                        (true, "mul-op")
+                    } else {
+                        let fused = !is_live(o) && muladd_by_io.get(&o).is_some_and(|v| v.iter().any(|p| *p == (x, y)));
+                        (fused, "fused-mul-add")
+                    }
+                }
+                Expr::Div { lhs, rhs } => {
+                    let (l, r) = (slot(*lhs)?, slot(*rhs)?);
+                    let (x, y) = pair(o, r);
+                    (mul_ops.contains(&(x, y, l)), "mul-op-solved-for-operand")
+                }
+                Expr::MulAdd { a, b, c: cc } => {
+                    let (a, b, cc) = (slot(*a)?, slot(*b)?, slot(*cc)?);
+                    let (x, y) = pair(a, b);
+                    (muladd_by_out.get(&o).is_some_and(|v| v.iter().any(|(p, q, r, _)| (*p, *q, *r) == (x, y, cc))), "mul-add-op")
+                }
+                Expr::HornerAcc { acc, alpha, p_at_z, p_at_x } => {
+                    let k = (slot(*acc)?, slot(*alpha)?, slot(*p_at_z)?, slot(*p_at_x)?, o);
+                    (horner_ops.contains(&k), "horner-op")
+                }
+                Expr::BoolCheck { val } => (bool_ops.contains(&(slot(*val)?, o)), "bool-check-op"),
+                Expr::PrivateInput(_) | Expr::NonPrimitiveCall { .. } | Expr::NonPrimitiveOutput { .. } => return None,
+            })
+        })();
+        let Some((carried, via)) = verdict else { continue };
+        if carried {
+            bump(format!("{kind}/{via}"));
+        } else if fails.len() < MAX_FAILS {
+            let mut sl = vec![("out".to_string(), o, coeffs::<F, EF>(&lib.witness[o as usize]))];
+            let ops_on_out: Vec<String> =
+                c.ops.iter().filter(|op| op_mentions(op, o)).take(6).map(|op| opsem::op_text(op)).collect();
+            sl.push((format!("ops mentioning the result slot: {ops_on_out:?}; slot referred to by a relation: {}", is_live(o)), o, vec![]));
+            fails.push(Fail { kind, no_slot: false, index: i, text: format!("{node:?}"), slots: sl });
+        }
+    }
+    for (k, (a, b)) in lib.snap.connects.iter().enumerate() {
+        if let (Some(x), Some(y)) = (slot(*a), slot(*b)) {
+            if x == y {
+                bump("connect/same-slot".into());
+            } else if fails.len() < MAX_FAILS {
+                fails.push(Fail {
+                    kind: "connect",
+                    no_slot: false,
+                    index: k,
+                    text: format!("connect({a:?}, {b:?}) on two different slots"),
+                    slots: vec![("a".into(), x, vec![]), ("b".into(), y, vec![])],
+                });
+            }
+        }
+    }
+    fails
+}
+
+fn op_mentions<EF>(op: &Op<EF>, s: u32) -> bool {
+    match op {
+        Op::Const { out, .. } | Op::Public { out, .. } => out.0 == s,
+        Op::Alu { a, b, c, out, intermediate_out, .. } => {
+            a.0 == s || b.0 == s || out.0 == s || c.is_some_and(|x| x.0 == s) || intermediate_out.is_some_and(|x| x.0 == s)
+        }
+        Op::Hint { inputs, outputs, .. } => inputs.iter().chain(outputs.iter()).any(|x| x.0 == s),
+        Op::NonPrimitiveOpWithExecutor { inputs, outputs, .. } => inputs.iter().chain(outputs.iter()).flatten().any(|x| x.0 == s),
+    }
+}
+
 fn fail_json(f: &Fail) -> Value {
     json!({"what": f.kind, "index": f.index, "expr": f.text,
         "slots": f.slots.iter().map(|(r, s, v)| json!({"role": r, "slot": s, "value": v})).collect::<Vec<_>>()})
@@ -413,6 +618,32 @@ fn analyse<F: PrimeField64, EF: ExtensionField<F>>(lib: &Lib<EF>, seed: u64) -> 
             if !live[s.0 as usize] {
                 *nodes_on_free.entry(node_kind(node)).or_default() += 1;
             }
+        }
+    }
+    // ---- C03: lib-carried (every source relation is carried by an emitted op relation) ----
+    {
+        let mut carried: BTreeMap<String, u64> = BTreeMap::new();
+        let uncarried = check_carried::<F, EF>(lib, &live, &mut carried);
+        let total: u64 = carried.values().sum();
+        if uncarried.is_empty() {
+            let mut r = CaseResult::held(format!("C03:libcarry:{}", lib.name), total > 0)
+                .count("lib-carried-circuits", 1)
+                .count(format!("lib-shape-kind/{kind}"), 1);
+            for (k, n) in &carried {
+                r = r.count(format!("lib-carried/{k}"), *n);
+            }
+            out.push(r);
+        } else {
+            let sig = |f: &Fail| format!("lib-uncarried-relation/{}/{kind}", f.kind);
+            out.extend(violations(
+                "C03",
+                &lib.name,
+                &format!("libcarry:{}", lib.name),
+                &uncarried,
+                &sig,
+                &lib.how,
+                json!({"oracle": "lib-carried: no emitted op relation carries this source relation on its witness slots", "stats": stats}),
+            ));
         }
     }
     for k in 0..FILLINGS {
@@ -789,6 +1020,30 @@ mod kc {
     kit_cfg!(kbzkh);
 }
 
+/// Larger instances for the thorough tier (not in the kit's list; built with `kit::probe_shape`):
+/// more tables per batch, taller traces (more FRI phases), bigger proven circuits.
+fn extra_shapes() -> Vec<Box<dyn Shape>> {
+    [
+        "bb/batch/mul64,mul256,add256,sub32,fib32,pv8",
+        "kb/uni/fib1024",
+        "bb/uni/mul1024",
+        "bb/circ400",
+        "kb/circ1000",
+        "kb5/batch/mul64,add256,fib32",
+        "gl/batch/mul256,add256,sub32,fib32",
+        "gl/circ400",
+        "kbzk/batch/mul64,add256,sub32,fib32",
+        "kbzkh/batch/mul64,add64,fib32",
+    ]
+    .iter()
+    .filter_map(|s| kit::probe_shape(s))
+    .collect()
+}
+
+fn shape_by_name(name: &str) -> Option<Box<dyn Shape>> {
+    kit::shape_by_name(name).or_else(|| extra_shapes().into_iter().find(|s| s.name() == name))
+}
+
 fn run_kit_shape(shape: &dyn Shape, seed: u64) -> Vec<CaseResult> {
     let name = shape.name();
     let Some((spec, cfg)) = parse_shape_name(&name) else {
@@ -806,7 +1061,7 @@ fn run_kit_shape(shape: &dyn Shape, seed: u64) -> Vec<CaseResult> {
     });
     match r {
         Ok(Ok(rs)) => rs,
-        Ok(Err(e)) => both_inconclusive(&name, e),
+        Ok(Err(e)) => not_analysed(&name, shape.kind(), json!({"stream": "kit", "shape": name}), e),
         Err(p) => both_inconclusive(&name, format!("harness panic: {}", panic_site(&p))),
     }
 }
@@ -817,6 +1072,30 @@ fn both_inconclusive(name: &str, why: String) -> Vec<CaseResult> {
         CaseResult::inconclusive(format!("C02:lib:{name}"), why.clone()),
         CaseResult::inconclusive(format!("C03:lib:{name}"), why),
     ]
+}
+
+/// Outcome of building + running a library circuit that did not reach the oracles.
+///
+/// The inputs are honest and accepted by the native verifier (C01 / C07 / the native challenger
+/// establish that on the same data), i.e. every relation the library asserts holds mathematically;
+/// if the compiled circuit nevertheless refuses them at run time, some expression was not given
+/// the value it denotes (C02: "the run succeeds whenever every asserted relation holds").
+/// Everything else (proof generation, circuit construction, `build()` errors) is a harness /
+/// other-property matter and stays inconclusive.
+fn not_analysed(name: &str, kind: &str, how: Value, e: String) -> Vec<CaseResult> {
+    if let Some(err) = e.strip_prefix("honest run failed: ") {
+        let variant: String = err.split(|c: char| !c.is_alphanumeric() && c != '_').find(|s| !s.is_empty()).unwrap_or("Err").to_string();
+        return vec![
+            CaseResult::violated(
+                format!("C02:lib:{name}"),
+                format!("lib-honest-run-failed/{variant}/{kind}"),
+                json!({"circuit": name, "how": how, "error": err.chars().take(400).collect::<String>(),
+                    "note": "honest, natively accepted inputs; CircuitRunner::run returned Err"}),
+            ),
+            CaseResult::inconclusive(format!("C03:lib:{name}"), "honest run failed (reported under C02)"),
+        ];
+    }
+    both_inconclusive(name, e)
 }
 
 // ------------------------------------------------------------------------------------------
@@ -908,7 +1187,12 @@ fn challenger_history<C: Cfg>(h: &[HOp], recompose: bool, consume: bool, seed: u
     let name = format!("challenger/{}/{:016x}", C::NAME, fnv(&format!("{}{recompose}{consume}", serde_json::to_string(h).unwrap_or_default())));
     match guarded(|| challenger_lib::<C>(&name, h, recompose, consume)) {
         Ok(Ok(lib)) => analyse::<BOf<C>, EOf<C>>(&lib, seed),
-        Ok(Err(e)) => both_inconclusive(&name, e),
+        Ok(Err(e)) => not_analysed(
+            &name,
+            "challenger",
+            json!({"stream": "challenger", "config": C::NAME, "history": h, "recompose_npo": recompose, "consume": consume}),
+            e,
+        ),
         Err(p) => both_inconclusive(&name, format!("harness panic: {}", panic_site(&p))),
     }
 }
@@ -997,18 +1281,55 @@ fn fri_points(seed: u64, thorough: bool) -> Vec<FriPoint> {
         fp("bb", 3, 1, 1, 1, 2, 0, vec![vec![(5, 4, 1)], vec![(5, 1, 3)], vec![(5, 2, 2)]]),
         fp("kb", 2, 2, 3, 0, 0, 1, vec![vec![(6, 2, 1), (6, 1, 2)]]),
     ];
+    g.extend([
+        fp("bb", 1, 8, 3, 3, 1, 2, vec![vec![(6, 1, 1)], vec![(5, 2, 1), (6, 1, 1)]]),
+        fp("bb", 1, 4, 3, 0, 0, 16, vec![vec![(6, 3, 3)], vec![(6, 2, 1), (5, 2, 1)]]),
+        fp("bb", 2, 1, 2, 0, 0, 0, vec![vec![(0, 1, 1), (4, 1, 3)], vec![(1, 2, 1), (4, 1, 1)], vec![(4, 1, 1)]]),
+        fp("kb", 3, 3, 3, 2, 2, 3, vec![vec![(6, 2, 1), (3, 1, 1)]]),
+        fp("kb", 1, 6, 1, 0, 3, 0, vec![vec![(3, 1, 1)], vec![(3, 1, 3)]]),
+        fp("bb", 2, 7, 2, 3, 1, 1, vec![vec![(5, 1, 1), (4, 2, 1)]]),
+        fp("bb", 2, 5, 2, 1, 0, 1, vec![vec![(2, 1, 1), (4, 1, 3)], vec![(3, 2, 1), (4, 2, 2)], vec![(4, 1, 1)]]),
+        fp("kb", 1, 8, 2, 1, 1, 1, vec![vec![(8, 4, 3)], vec![(8, 2, 1), (6, 3, 3), (4, 1, 1)]]),
+        fp("bb", 1, 6, 3, 2, 1, 1, vec![vec![(9, 3, 3), (7, 2, 1)], vec![(9, 1, 1)]]),
+    ]);
     if thorough {
+        // large instances (10^4 - 10^5 source nodes) and random points
         g.extend([
-            fp("bb", 1, 8, 3, 3, 1, 2, vec![vec![(6, 1, 1)], vec![(5, 2, 1), (6, 1, 1)]]),
-            fp("bb", 1, 4, 3, 0, 0, 16, vec![vec![(6, 3, 3)], vec![(6, 2, 1), (5, 2, 1)]]),
-            fp("bb", 2, 1, 2, 0, 0, 0, vec![vec![(0, 1, 1), (4, 1, 3)], vec![(1, 2, 1), (4, 1, 1)], vec![(4, 1, 1)]]),
-            fp("kb", 3, 3, 3, 2, 2, 3, vec![vec![(6, 2, 1), (3, 1, 1)]]),
-            fp("kb", 1, 6, 1, 0, 3, 0, vec![vec![(3, 1, 1)], vec![(3, 1, 3)]]),
-            fp("bb", 2, 7, 2, 3, 1, 1, vec![vec![(5, 1, 1), (4, 2, 1)]]),
-            fp("bb", 2, 5, 2, 1, 0, 1, vec![vec![(2, 1, 1), (4, 1, 3)], vec![(3, 2, 1), (4, 2, 2)], vec![(4, 1, 1)]]),
-            fp("kb", 1, 8, 2, 1, 1, 1, vec![vec![(8, 4, 3)], vec![(8, 2, 1), (6, 3, 3), (4, 1, 1)]]),
-            fp("bb", 1, 6, 3, 2, 1, 1, vec![vec![(9, 3, 3), (7, 2, 1)], vec![(9, 1, 1)]]),
+            fp("bb", 1, 16, 3, 0, 1, 1, vec![vec![(10, 4, 3)], vec![(10, 2, 1), (8, 3, 3)]]),
+            fp("kb", 2, 24, 2, 2, 1, 1, vec![vec![(11, 6, 3), (9, 2, 1)], vec![(11, 3, 1)]]),
+            fp("bb", 1, 40, 1, 0, 0, 8, vec![vec![(12, 8, 3)], vec![(12, 4, 1)], vec![(12, 2, 3), (10, 1, 1)]]),
+            fp("kb", 1, 100, 2, 0, 0, 0, vec![vec![(12, 6, 3)], vec![(12, 3, 3), (9, 2, 1)]]),
         ]);
+        for i in 0..240usize {
+            let mut rng = case_rng(seed, "c02lib-fri-random", i as u64);
+            let lb = 1 + i % 3;
+            let a = 1 + (i / 3) % 3;
+            let f = (i / 9) % 4;
+            let min_ls = if f > 0 { f + 1 } else { 0 };
+            let max_ls = (min_ls + 1 + rng.random_range(0..6usize)).min(9);
+            let nb = 1 + rng.random_range(0..3usize);
+            let mut batches = vec![];
+            for _ in 0..nb {
+                let nm = 1 + rng.random_range(0..3usize);
+                let mut b: Vec<(usize, usize, u8)> = (0..nm)
+                    .map(|_| (rng.random_range(min_ls..=max_ls), 1 + rng.random_range(0..4usize), *pick(&mut rng, &[1u8, 1, 1, 3, 3, 2])))
+                    .collect();
+                // every commitment holds a matrix of the global maximum height
+                let k = rng.random_range(0..b.len());
+                b[k].0 = max_ls;
+                batches.push(b);
+            }
+            g.push(fp(
+                if i % 2 == 0 { "bb" } else { "kb" },
+                lb,
+                1 + rng.random_range(0..8usize),
+                a,
+                f,
+                rng.random_range(0..4usize),
+                rng.random_range(0..4usize),
+                batches,
+            ));
+        }
     }
     for (i, p) in g.iter_mut().enumerate() {
         let mut rng = case_rng(seed, "c02lib-fri", i as u64);
@@ -1245,9 +1566,62 @@ fn run_fri_point(p: &FriPoint, seed: u64) -> Vec<CaseResult> {
     });
     match r {
         Ok(Ok(rs)) => rs,
-        Ok(Err(e)) => both_inconclusive(&name, e),
+        Ok(Err(e)) => not_analysed(&name, "fri", json!({"stream": "fri", "point": p}), e),
         Err(pn) => both_inconclusive(&name, format!("harness panic: {}", panic_site(&pn))),
     }
+}
+
+// ------------------------------------------------------------------------------------------
+// Stream 0 (not in the default set; `--streams micro`): hand-written idioms used to check that the
+// oracles can fire (aliased product read by an add, connect-induced duplicate ALU ops)
+// ------------------------------------------------------------------------------------------
+
+fn micro_cases(seed: u64) -> Vec<CaseResult> {
+    type F = kit::cfgs::bb::F;
+    type EF = kit::cfgs::bb::Challenge;
+    let mut out = vec![];
+    let v = |x: u64| EF::from(F::from_u64(x));
+    let mut run = |name: &str, b: CircuitBuilder<EF>, pubs: Vec<EF>| {
+        let r = (|| -> Result<Lib<EF>, String> {
+            let snap = b.verif_snapshot();
+            let circuit = b.build().map_err(|e| format!("build: {e:?}"))?;
+            if std::env::var("P3R_C02LIB_DUMP").is_ok() {
+                eprintln!("micro/{name}: {:#?}\n{:?}", opsem::ops_text(&circuit), snap.nodes);
+            }
+            let mut runner = circuit.runner();
+            runner.set_public_inputs(&pubs).map_err(|e| format!("set_public_inputs: {e:?}"))?;
+            let traces = runner.run().map_err(|e| format!("honest run failed: {e:?}"))?;
+            let witness = read_witness(&circuit, &traces)?;
+            Ok(Lib { name: format!("micro/{name}"), kind: "micro", how: json!({"stream": "micro", "program": name}), snap, circuit, witness, pubs, privs: vec![] })
+        })();
+        match r {
+            Ok(lib) => out.extend(analyse::<F, EF>(&lib, seed)),
+            Err(e) => out.extend(not_analysed(&format!("micro/{name}"), "micro", json!({"stream": "micro", "program": name}), e)),
+        }
+    };
+    {
+        // t = a*5 shares its slot with the public input p (connect); o = t + c reads it once
+        let mut b = CircuitBuilder::<EF>::new();
+        let (p, a, c) = (b.public_input(), b.public_input(), b.public_input());
+        let k = b.define_const(v(5));
+        let t = b.mul(a, k);
+        b.connect(t, p);
+        let o = b.add(t, c);
+        let _ = b.mul(o, o);
+        run("aliased-product-plus-addend", b, vec![v(15), v(3), v(7)]);
+    }
+    {
+        // a2 is connected to a: add(a,b) and add(a2,b) become duplicate ALU ops; both results are read
+        let mut b = CircuitBuilder::<EF>::new();
+        let (a, a2, bb, r) = (b.public_input(), b.public_input(), b.public_input(), b.public_input());
+        b.connect(a, a2);
+        let x = b.add(a, bb);
+        let y = b.add(a2, bb);
+        let m = b.mul(x, y);
+        b.connect(m, r);
+        run("connect-induced-duplicate-add", b, vec![v(3), v(3), v(5), v(64)]);
+    }
+    out
 }
 
 // ------------------------------------------------------------------------------------------
@@ -1255,6 +1629,7 @@ fn run_fri_point(p: &FriPoint, seed: u64) -> Vec<CaseResult> {
 // ------------------------------------------------------------------------------------------
 
 enum Job {
+    Micro,
     Kit(usize),
     Challenger(usize),
     Fri(usize),
@@ -1276,7 +1651,7 @@ fn replay_detail(d: &Value, seed: u64) -> Vec<CaseResult> {
     match how["stream"].as_str() {
         Some("kit") => {
             let name = how["shape"].as_str().unwrap_or("");
-            match kit::shape_by_name(name) {
+            match shape_by_name(name) {
                 Some(s) => run_kit_shape(s.as_ref(), seed),
                 None => both_inconclusive(name, "unknown kit shape".into()),
             }
@@ -1328,6 +1703,9 @@ fn main() {
     let filter = args.extra.get("shape").cloned();
 
     let mut shapes = kit::all_shapes(thorough);
+    if thorough {
+        shapes.extend(extra_shapes());
+    }
     if let Some(f) = &filter {
         shapes.retain(|s| s.name().contains(f.as_str()));
     }
@@ -1335,7 +1713,7 @@ fn main() {
     if let Some(f) = &filter {
         points.retain(|p| p.key().contains(f.as_str()));
     }
-    let n_hist = if filter.as_ref().is_some_and(|f| !f.contains("challenger")) { 0 } else { args.tier.pick(24usize, 360usize) };
+    let n_hist = if filter.as_ref().is_some_and(|f| !f.contains("challenger")) { 0 } else { args.tier.pick(120usize, 4000usize) };
 
     // largest circuits first (the thorough-only shapes are appended last by the kit)
     let mut jobs: Vec<Job> = vec![];
@@ -1349,7 +1727,11 @@ fn main() {
         jobs.extend((0..n_hist).map(Job::Challenger));
     }
 
+    if streams.iter().any(|s| s == "micro") {
+        jobs.push(Job::Micro);
+    }
     let results = run_cases(jobs.len(), args.threads, |i| match &jobs[i] {
+        Job::Micro => micro_cases(seed),
         Job::Kit(s) => run_kit_shape(shapes[*s].as_ref(), seed),
         Job::Fri(p) => run_fri_point(&points[*p], seed),
         Job::Challenger(k) => {
